@@ -103,7 +103,20 @@ async fn run_item<TC: ModelCfg>(rep: &Report, alphabet: &[Batch], it: &Item) {
         return;
     }
     rep.distinct(format!("{}:{:?}:{}:{}:{}", TC::NAME, it.variant, show_history(&history), show_batch(next), n));
-    for k in 0..n {
+    // a follow-up batch different from the failed one (a value never used before), preferably on a
+    // label the failed batch does not touch
+    let al = crate::common::alphabet::<TC>();
+    let alt_label = al.labels.iter().find(|l| !next.iter().any(|(nl, _)| nl == *l)).unwrap_or(&al.labels[0]).clone();
+    let alt: Batch = vec![(alt_label, b"z".to_vec())];
+    let mut model_alt = model.clone();
+    let expect_alt = model_alt.publish(&alt);
+    let mut published_alt = published.clone();
+    if let MPublish::NewEpoch(_) = expect_alt {
+        published_alt.push(model_root::<TC>(&model_alt).0);
+    }
+    for k2x in 0..2 * n {
+        let k = k2x / 2;
+        let follow_up_differs = k2x % 2 == 1;
         let what = op_class(&log[k]);
         let hist = || format!("{} ; THEN {} with storage call #{k} of {n} ({} {}) failing", show_history(&history), show_batch(next), log[k].kind, log[k].detail);
         let (db, mgr, dir) = setup::<TC>(&base, it.variant, &model).await;
@@ -152,21 +165,37 @@ async fn run_item<TC: ModelCfg>(rep: &Report, alphabet: &[Batch], it: &Item) {
         if !still_prev {
             continue; // already reported above (or the double-fault retry went through)
         }
+        // continuation A: the same batch again; continuation B: a different batch — the directory must
+        // end exactly where it would be had the failed call never been made
+        let (next, expect, model_new, published_new) =
+            if follow_up_differs { (&alt, &expect_alt, &model_alt, &published_alt) } else { (next, &expect, &model_new, &published_new) };
+        let failed_only: Vec<Vec<u8>> = if follow_up_differs { absent.iter().filter(|l| !model_new.users.contains_key(*l)).cloned().collect() } else { vec![] };
         let r3 = dir.publish(to_akd_batch(next)).await;
-        match (&r3, &expect) {
+        match (&r3, expect) {
             (Ok(eh), MPublish::NewEpoch(e)) if eh.0 == *e && eh.1 == published_new[*e as usize] => {}
             (Ok(eh), MPublish::NoChange) if eh.0 == model.epoch && eh.1 == published[model.epoch as usize] => {}
             _ => rep.violation(
-                format!("{}/{:?}/retry_after_failed_publish_wrong/{}", TC::NAME, it.variant, what),
-                json!({"history": hist(), "retry": format!("{r3:?}"), "expected": format!("{expect:?}")}),
+                format!("{}/{:?}/later_publish_after_failed_publish_wrong/{}", TC::NAME, it.variant, what),
+                json!({"history": hist(), "later_publish": show_batch(next), "result": format!("{r3:?}"), "expected": format!("{expect:?}")}),
             ),
         }
-        for b in reader_suite::<TC, _>(&dir, &model_new, &published_new, &[], true).await {
-            rep.violation(format!("{}/{:?}/same_instance_after_retry/{}/{}", TC::NAME, it.variant, b.kind, what), json!({"history": hist(), "detail": b.detail}));
+        let cont = if follow_up_differs { "different_batch" } else { "same_batch" };
+        for b in reader_suite::<TC, _>(&dir, model_new, published_new, &failed_only, true).await {
+            rep.violation(format!("{}/{:?}/same_instance_after_later_publish/{cont}/{}/{}", TC::NAME, it.variant, b.kind, what), json!({"history": hist(), "later_publish": show_batch(next), "detail": b.detail}));
         }
         let fresh = new_dir::<TC>(&db, &GateVrf::new(), CacheCfg::None, AzksParallelismConfig::disabled()).await;
-        for b in reader_suite::<TC, _>(&fresh, &model_new, &published_new, &[], true).await {
-            rep.violation(format!("{}/{:?}/fresh_instance_after_retry/{}/{}", TC::NAME, it.variant, b.kind, what), json!({"history": hist(), "detail": b.detail}));
+        for b in reader_suite::<TC, _>(&fresh, model_new, published_new, &failed_only, true).await {
+            rep.violation(format!("{}/{:?}/fresh_instance_after_later_publish/{cont}/{}/{}", TC::NAME, it.variant, b.kind, what), json!({"history": hist(), "later_publish": show_batch(next), "detail": b.detail}));
+        }
+        // storage holds no record the two publishes' model does not explain: compare with a directory
+        // that never saw the failure
+        {
+            let clean = base.fork().await;
+            let cd = new_dir::<TC>(&clean, &GateVrf::new(), CacheCfg::None, AzksParallelismConfig::disabled()).await;
+            let _ = cd.publish(to_akd_batch(next)).await;
+            if clean.dump().await != db.dump().await {
+                rep.violation(format!("{}/{:?}/storage_differs_from_never_failed_directory/{cont}/{}", TC::NAME, it.variant, what), json!({"history": hist(), "later_publish": show_batch(next)}));
+            }
         }
         if k == n / 2 {
             rep.sample_cap(json!({"cfg": TC::NAME, "variant": format!("{:?}", it.variant), "case": hist(), "calls_in_fault_free_publish": n}), 8);
